@@ -1095,8 +1095,75 @@ def parseFields (env : Env) (fs : List Sexp) : Option (List (String × Ty)) :=
     | .list [.atom "field", t, .atom n] => do some (n, ← parseTy env t)
     | _ => none)
 
+/-! ## Redeclarations
+
+All three languages reject a translation unit that declares one name twice in one scope: two types, two global variables,
+two functions with the same parameter types (overloads differ in them), a variable next to a function or type of the same
+name, two locals of one block, a local of the outermost block of a function next to a parameter.  GLSL interface-block names
+share the global namespace with everything else ("it is a compile-time error to use a block name at global scope for
+anything other than as a block name"). -/
+
+def dupOf : List String → Option String
+  | [] => none
+  | x :: xs => if xs.contains x then some x else dupOf xs
+
+def declNames (ss : List Sexp) : List String :=
+  ss.filterMap (fun s => match s with | .list (.atom "decl" :: _ :: _ :: .atom n :: _) => some n | _ => none)
+
+partial def localRedecl : Sexp → Option String
+  | .list (.atom "block" :: ss) =>
+    match dupOf (declNames ss) with
+    | some n => some n
+    | none => ss.findSome? localRedecl
+  | .list xs => xs.findSome? localRedecl
+  | _ => none
+
+def redeclaration (d : Dialect) (items : List Sexp) : Option String :=
+  let types := items.filterMap (fun it => match it with
+    | .list (.atom "struct" :: .atom n :: _) => some n
+    | .list [.atom "typedef", .atom n, _] => some n
+    | _ => none)
+  let globals := items.flatMap (fun it => match it with
+    | .list (.atom "global" :: _ :: _ :: .atom n :: _) => [n]
+    | .list (.atom "block" :: _ :: .atom _ :: .atom inst :: fs) =>
+      if inst != "" then [inst] else fs.filterMap (fun f => match f with | .list [.atom "field", _, .atom n] => some n | _ => none)
+    | _ => [])
+  let blocks := items.filterMap (fun it => match it with
+    | .list (.atom "block" :: _ :: .atom n :: _) => if n != "" then some n else none
+    | _ => none)
+  let funcs := items.filterMap (fun it => match it with
+    | .list [.atom "func", _, _, .atom n, .list ps, body] => some (n, ps, body)
+    | _ => none)
+  let sigs := funcs.map (fun f => f.1 ++ "(" ++ ", ".intercalate (f.2.1.map (fun p => match paramTy p with | some (_, t, _) => toString t | none => "?")) ++ ")")
+  let fnames := funcs.map (·.1)
+  match dupOf types with
+  | some n => some s!"redeclaration: type {n} is defined twice"
+  | none =>
+  match dupOf globals with
+  | some n => some s!"redeclaration: global {n} is declared twice"
+  | none =>
+  match dupOf sigs with
+  | some n => some s!"redeclaration: function {n} is defined twice"
+  | none =>
+  match globals.find? (fun g => fnames.contains g || types.contains g) with
+  | some n => some s!"redeclaration: {n} is both a global variable and a function or type"
+  | none =>
+  match (if d == .glsl then blocks.find? (fun b => fnames.contains b || types.contains b || globals.contains b) else none) with
+  | some n => some s!"redeclaration: interface block name {n} is also the name of a function, type or variable"
+  | none =>
+  match (if d == .glsl then dupOf blocks else none) with
+  | some n => some s!"redeclaration: interface block name {n} is used twice"
+  | none =>
+  funcs.findSome? (fun f =>
+    let pnames := f.2.1.filterMap (fun p => (paramTy p).map (·.2.2))
+    let top := match f.2.2 with | .list (.atom "block" :: ss) => declNames ss | _ => []
+    match dupOf (pnames ++ top) with
+    | some n => some s!"redeclaration: {n} is declared twice in the outermost scope of function {f.1}"
+    | none => (localRedecl f.2.2).map (fun n => s!"redeclaration: local {n} is declared twice in one block of function {f.1}"))
+
 /-- structs, typedefs and functions, in textual order (later declarations may use earlier ones). -/
 def loadDecls (d : Dialect) (items : List Sexp) : CM Env := do
+  if let some e := redeclaration d items then throw (.stuck e)
   let mut env : Env := { d := d, structs := #[], typedefs := [], funcs := [] }
   for it in items do
     match it with
